@@ -25,7 +25,7 @@ ASSUMPTIONS = [
     "VERIF_SEED, so all displacements are exact in binary floating point; nothing is claimed about other real values",
     "evenly spaced timesteps 500+100k for Dynamics, 500+{0,1,10,100,1000} for LogDynamics, dt = 0.002",
     "selections are boolean masks with the same number of selected particles in every frame (otherwise N in chi4 is undefined)",
-    "neighbour files are written by the harness (k nearest by minimum image, k = 1, 2; every particle has >= 1 neighbour); "
+    "neighbour files are written by the harness (k nearest by minimum image, k = 1, 2, or ragged: 1 / 2 nearest alternating; every particle has >= 1 neighbour); "
     "the file is an input, the neighbour search itself is C05's subject",
     "wrapped == unwrapped is claimed (and generated) only for trajectories whose displacements stay below L/2 (4 steps of b < 4)",
     "sq4: a (lag, state) whose mobile subset is empty at some origin is outside the domain (division by sqrt(0)) and is skipped; "
@@ -127,7 +127,7 @@ OPT_DOMS = collections.OrderedDict(
         ("a", [0.3, 0.5]),
         ("cal", ["slow", "fast"]),
         ("sel", ["none", "type", "vary"]),
-        ("neigh", [0, 1, 2]),
+        ("neigh", [0, 1, 2, 3]),  # 3 = ragged (1 or 2 nearest, alternating)
         ("qconst", ["2pi", "5"]),
     ]
 )
@@ -210,6 +210,14 @@ class World:
         k = self.o["neigh"]
         if not k:
             return None
+        if k == 3:
+            # ragged lists: particle i lists its 1 (even i) or 2 (odd i) nearest - unequal coordination numbers, so the table read
+            # back from the file is zero-padded (and 0 is also the index of the first particle)
+            out = []
+            for x in xs:
+                two = RD.knearest(RD.wrap(x, self.L), self.H, [1] * self.d, 2)
+                out.append([nb[: 1 + (i % 2)] for i, nb in enumerate(two)])
+            return out
         return [RD.knearest(RD.wrap(x, self.L), self.H, [1] * self.d, k) for x in xs]
 
 
@@ -465,7 +473,7 @@ def gen_log(tier, seed):
     calls = ["log"]
     for d in (2, 3):
         yield from roots(S, 2, d, 4, "pp", "bulk", {}, calls)
-    for o in ({"cal": "fast"}, {"neigh": 1}, {"sel": "type"}, {"mode": "x"}, {"neigh": 2, "sel": "vary"}):
+    for o in ({"cal": "fast"}, {"neigh": 1}, {"sel": "type"}, {"mode": "x"}, {"neigh": 2, "sel": "vary"}, {"neigh": 3}):
         yield from roots(S, 3, 2, 3, "pp", "tri", o, calls)
     if tier == "thorough":
         yield from roots(S, 3, 2, 5, "joint", "tri", {"neigh": 1}, calls)
@@ -491,8 +499,9 @@ def gen_wrapped(tier, seed):
 
 def gen_cage(tier, seed):
     S = "C06.cage"
-    for k in (1, 2):
+    for k in (1, 2, 3):
         yield from roots(S, 3, 2, 3, "pp", "tri", {"neigh": k}, ["xu", "x"])
+    yield from roots(S, 4, 2, 4, "joint", "tri", {"neigh": 3}, ["xu", "x"])
     yield from roots(S, 3, 3, 4, "joint", "tri", {"neigh": 1}, ["xu", "x"])
     yield from roots(S, 4, 2, 4, "joint", "tri", {"neigh": 2}, ["xu", "x"])
     if tier == "thorough":
@@ -545,7 +554,7 @@ S4_DOMS = collections.OrderedDict(
         ("mode", ["xu", "x", "both"]),
         ("cal", ["slow", "fast"]),
         ("sel", ["none", "vary"]),
-        ("neigh", [0, 1]),
+        ("neigh", [0, 1, 3]),
         ("a", [0.3, 0.5]),
         ("diam", ["mixed", "eq"]),
         ("qrange", [2.0, 3.2]),
